@@ -334,6 +334,11 @@ class Program:
                 return self.bodies.get(pre + path[len(pre):].replace(pre, ""))
             if path.startswith("<" + pre):
                 return self.bodies.get(pre + "<" + path[1:].replace(pre, ""))
+            if path.startswith("<") and (" as " + pre) in path:
+                # blanket impl `<T as retrofire_core::math::Lerp>::lerp`
+                hit = self.bodies.get(pre + path.replace(pre, ""))
+                if hit is not None:
+                    return hit
         return None
 
     # ---------------------------------------------------------------- inlining
@@ -455,6 +460,35 @@ class Program:
                 if pl and not pl["p"]:
                     return variant_of(pl["l"], depth + 1)
             return None
+        def const_of(local, depth=0):
+            ds = defs.get(local, [])
+            if len(ds) != 1 or depth > 4:
+                return None
+            rv = ds[0]
+            if rv["k"] == "Use":
+                k_ = rv["a"].get("k")
+                if k_ is not None and isinstance(k_.get("v"), int) and k_.get("ty") in ("bool", "usize", "u8", "u32", "i32", "isize", "u64", "i64", "u16", "i16", "i8"):
+                    return int(k_["v"])
+                pl = rv["a"].get("m") or rv["a"].get("c")
+                if pl and not pl["p"]:
+                    return const_of(pl["l"], depth + 1)
+            return None
+        # a helper's flag parameter bound to a literal at the inlined call site: `if flip { .. }` has one live arm
+        for blk in d["blocks"]:
+            t = blk["term"]
+            if t.get("k") != "SwitchInt":
+                continue
+            pl = t["discr"].get("m") or t["discr"].get("c")
+            if not pl or pl["p"]:
+                continue
+            cv = const_of(pl["l"])
+            if cv is None:
+                continue
+            tgt = t["otherwise"]
+            for tv, tb in t["targets"]:
+                if tv == cv:
+                    tgt = tb
+            blk["term"] = {"k": "Goto", "t": tgt, "line": t.get("line"), "folded": "const %d" % cv}
         STD = {("core::option::Option", "None"): 0, ("core::option::Option", "Some"): 1, ("core::result::Result", "Ok"): 0, ("core::result::Result", "Err"): 1}
         for blk in d["blocks"]:
             t = blk["term"]
